@@ -563,8 +563,42 @@ static void long_precisions_body()
     mc::outcome(vd.shape);
 }
 
+// ------------------------------------------------------------------ (4) field widths around and beyond 2^8
+// A pad counter narrowed to 8 bits is invisible with the widths <= 30 of flags_x_widths.
+static void wide_fields_body()
+{
+    static const double D[] = {0.0, 1.5, -2.5e10, 0.000123456, 1e300, -DBL_MAX, 9.9995, INFINITY, NAN};
+    static const int WV[] = {255, 256, 257, 300, 1000};
+    static const unsigned FL[] = {0, F_LEFT, F_ZERO, F_PLUS, F_SPACE | F_ZERO, F_LEFT | F_ZERO, F_ALT};
+    static const struct
+    {
+        int k, v;
+    } P[] = {{0, 0}, {2, 0}, {2, 3}, {3, 17}, {2, 100}, {2, 400}};
+    const int ND = sizeof D / sizeof D[0], NF = sizeof FL / sizeof FL[0], NP = sizeof P / sizeof P[0];
+    int unit = mc::choose(ND * 6);
+    int wi = mc::choose(5 * 3); // literal, * positive, * negative
+    int fi = mc::choose(NF);
+    int pi = mc::choose(NP);
+    Spec d;
+    d.conv = CONV[unit % 6];
+    d.flags = FL[fi];
+    d.wkind = wi / 5 == 0 ? 1 : 2;
+    d.w = wi / 5 == 2 ? -WV[wi % 5] : WV[wi % 5];
+    d.pkind = P[pi].k;
+    d.p = P[pi].v;
+    double x = D[unit / 6];
+    Args tmp;
+    mc::describe("format %s width arg %d precision arg %d value %.17g (class %s)", vis(render(d, tmp)).c_str(), d.w, d.p, x, dclass(x));
+    Verdict vd;
+    // precisions above 17: safety clauses and the return value only (see long_precisions)
+    check_call(d, x, vd, d.p > 17);
+    mc::nontrivial(); // every field is at least 255 wide
+    mc::outcome(vd.shape);
+}
+
 MC_INIT
 {
+    mc::add_check("wide_fields", wide_fields_body);
     mc::add_check("long_precisions", long_precisions_body);
     mc::add_check("values_x_precisions", values_body);
     mc::add_check("flags_x_widths", flags_body);
